@@ -8,5 +8,5 @@ rsync -a --delete --exclude .git /repo/ $S/
 ( cd $S && patch -p1 -s --no-backup-if-mismatch < "$PATCH" ) || { echo "PATCH FAILED"; exit 3; }
 mkdir -p ${VERIF_OUT:-/tmp/mutverif}; cp /verif/known_findings.json /verif/properties.jsonl ${VERIF_OUT:-/tmp/mutverif}/
 for id in "$@"; do
-  VERIF_REPO=$S VERIF_DIR=${VERIF_OUT:-/tmp/mutverif} /verif/bin/verif-check $id 2>&1 | grep -v "^VIOLATION" | head -${MUTLINES:-12}
+  VERIF_REPO=$S VERIF_DIR=${VERIF_OUT:-/tmp/mutverif} /verif/bin/verif-check $id 2>&1 | grep -v "^VIOLATION\|^KNOWN" | head -${MUTLINES:-12}
 done
